@@ -328,6 +328,7 @@ def _coord_from_geo_rule(ck, P):
 def rules(ck, P):
     from . import c04 as _c04
     _c04.converter_paths_rule(ck, P)
+    _c04.converter_entry_rule(ck, P)
     from . import boxalg
     boxalg.transform_rule(ck, P, "R-BOX-D4")
     _from_geo_rule(ck, P)
